@@ -166,7 +166,7 @@ extern const char *rk_names[];
 enum Forge { FG_WRONGID = 0, FG_WRONGNAME, FG_WRONGTYPE, FG_WRONGCLASS, FG_CASEFLIP, FG_WRONGSRC, FG_OTHERSOCK, FG_NOCOOKIE, FG_BADCLIENTCOOKIE, FG_WRONGSRC_FRAMED, FG_NKINDS };
 extern const char *fg_names[];
 
-enum FaultSite { FS_SOCKET = 0, FS_SETSOCKOPT, FS_BIND, FS_CONNECT, FS_GETSOCKNAME, FS_SEND_REFUSED, FS_SEND_WOULDBLOCK, FS_SEND_SHORT, FS_RECV_RESET, FS_SEND_EINTR, FS_RECV_EINTR, FS_SEND_ENOBUFS, FS_NSITES };
+enum FaultSite { FS_SOCKET = 0, FS_SETSOCKOPT, FS_BIND, FS_CONNECT, FS_GETSOCKNAME, FS_SEND_REFUSED, FS_SEND_WOULDBLOCK, FS_SEND_SHORT, FS_RECV_RESET, FS_SEND_EINTR, FS_RECV_EINTR, FS_SEND_ENOBUFS, FS_SOCKET_EAGAIN, FS_NSITES };
 extern const char *fs_names[];
 
 // ------------------------------------------------------------------ records
